@@ -286,6 +286,9 @@ Section Body.
     destruct (nth_res acts i) as [ai|] eqn:E3; [|discriminate].
     destruct (nth_res roots i) as [ri|] eqn:E4; [|discriminate].
     destruct (count_true (less ++ [ri])) as [ct|] eqn:E5; [|discriminate].
+    unfold py_then in H.
+    destruct (is_bool_expr_like ai && is_bool_expr_like ((if acyclic then i_eq else i_ge) ct (PyInt 1)));
+      [|discriminate].
     inversion H; subst st'. clear H. simpl.
     apply nth_res_map_seq in E4. destruct E4 as [-> _].
     (* the count *)
